@@ -19,6 +19,12 @@ def run(ctx):
                 "decides; the literal set handed to the recursion is the remainder (never the false child; literals "
                 "below skipped negative literals are kept); the result puts the sub-cube on the branch taken.")
     n = epick.run(ctx, F)
+    ctx.explain("E-TABLE.pick (ZBDD): one step of the ZBDD pick_cube_edge::inner / pick_cube_dd_edge::inner on node(level; hi, lo): "
+                "hi == lo is a don't care (no choice; entry None / node (sub, sub)), lo == Empty forces true, otherwise the "
+                "choice decides once; the entry written is level_to_var(level); the dd variant returns the sub-cube itself on "
+                "the lo branch (zero-suppressed variable) and node(level; sub, Empty) on the hi branch.")
+    nz = epick.run_zbdd(ctx, F)
+    ctx.floor("E-TABLE.pick", "ZBDD situations of the cube-picking step", nz, 18)
     ctx.explain("E-POST.mapusers: pick_cube_uniform weights its choices with model counts; the count cache's map (whose keys are "
                 "kind-specific: BCDDs fold the complement tag in) is touched only by SatCountCache and sat_count_edge::inner.")
     epost.check_count_cache_users(ctx, F)
